@@ -40,7 +40,11 @@ class Ctx:
         self.also_props = {"C06": {"C04", "C07"}}.get(pid, set())
         # projected fields that are visible through the public API for this property
         self.obs_state = {"C01": {"sess", "peer", "ms", "rev"}, "C18": {"ms"}, "C15": {"ttag", "otag"},
-                          "C07": {"ms", "sess", "peer"}, "C03": {"ms"}, "C16": {"ver"}}.get(pid, set())
+                          "C07": {"ms", "sess", "peer"}, "C03": {"ms"}, "C16": {"ver"},
+                          # the state the property itself speaks about: what is retained (C08: texts and exponents;
+                          # C19: everything that grows), the SMP state machine (C11, C12), the fragment context (C14)
+                          "C08": {"rsq", "pend", "cur", "prev", "ax"}, "C19": {"rsq", "pend", "ctrs", "macs", "frag"},
+                          "C11": {"smp"}, "C12": {"smp"}, "C14": {"frag"}}.get(pid, set())
 
     def quick(self):
         return self.tier != "thorough"
@@ -603,6 +607,7 @@ def c12(ctx):
     ctx.export_validate("c12x-bag", dict(SMPCFG, NetMode="bag", MaxDup=1, MaxDrop=1, MaxSMPStart=1, MaxSMPAnswer=1, MaxSMPAbort=1, Secrets=[4]), "none",
                         drain=True, maxsched=400 if q else 6000)
     ctx.random_validate("smpdev", 64 if q else 960, 3 if q else 6)
+    ctx.random_validate("smpdeg", 32, 1)
     ctx.random_validate("smp", 32 if q else 320, 4 if q else 10)
 
 
@@ -807,6 +812,7 @@ def c13(ctx):
     ctx.export_tamper_validate("c13-life", dict(PolA=7, PolB=3, MaxSend=1, MaxFlight=3, MaxQuery=1, MaxEnd=1), "none",
                                per_msg=8 if q else 30, maxsched=40 if q else 300)
     ctx.random_validate("smpdev", 32 if q else 480, 3 if q else 6)
+    ctx.random_validate("smpdeg", 32, 1)
     ctx.random_validate("randfail", 160 if q else 1600, 90)
     st = go_check(ctx, ["parsefuzz", "-seed", str(ctx.seed)] + ([] if q else ["-deep"]), "PARSEFUZZ", "FUZZVIOLATION",
                   "a parser entry point panicked, hung or allocated out of proportion")
